@@ -119,6 +119,7 @@ type txInfo struct {
 	coinbase bool
 	created  bool // authored by the wallet under test
 	coins    []*coin
+	outIdx   map[string]uint32 // requested-output ordinal -> real output index (own and foreign outputs alike)
 }
 
 type lease struct {
@@ -237,6 +238,10 @@ func (r *runner) resolve(name string) (wire.OutPoint, *coin) {
 				if c.idx == p[1] {
 					return c.op, c
 				}
+			}
+			// an output of a known transaction that is not credited to the wallet
+			if i, ok := ti.outIdx[p[1]]; ok {
+				return wire.OutPoint{Hash: ti.hash, Index: i}, nil
 			}
 		}
 	}
@@ -580,7 +585,10 @@ func (r *runner) opRecv(kv map[string]string) (string, string) {
 		return "harness-error " + err.Error(), ""
 	}
 	tx.TxOut = outs
-	ti := &txInfo{name: name, tx: tx, hash: tx.TxHash(), height: -1, known: true, coins: coins}
+	ti := &txInfo{name: name, tx: tx, hash: tx.TxHash(), height: -1, known: true, coins: coins, outIdx: map[string]uint32{}}
+	for i := range outs {
+		ti.outIdx[strconv.Itoa(i)] = uint32(i)
+	}
 	for _, c := range coins {
 		i, _ := strconv.Atoi(c.idx)
 		c.op = wire.OutPoint{Hash: ti.hash, Index: uint32(i)}
@@ -1020,6 +1028,14 @@ func (r *runner) opCreate(kv map[string]string) (string, string) {
 		scripts[string(o.PkScript)] = true
 	}
 	change := "none"
+	ti.outIdx = map[string]uint32{}
+	for i, o := range tx.TxOut {
+		for j, ro := range outs {
+			if string(ro.PkScript) == string(o.PkScript) {
+				ti.outIdx[strconv.Itoa(j)] = uint32(i)
+			}
+		}
+	}
 	for i, o := range tx.TxOut {
 		matched := false
 		for _, c := range ownCoins {
